@@ -182,10 +182,18 @@ pub fn run(out: &mut Out, thorough: bool, seed: u64, _extra: &[String]) {
             let res = s.evaluator.apply_keyswitching_new(&ct2, &ksk);
             { let dirty = s.encryptor.encrypt_new(&plain); dest_forms(out, "apply_keyswitching", &format!("{}-l{}", scheme_name(scheme), level), &res, &dirty, &|d| s.evaluator.apply_keyswitching(&ct2, &ksk, d)); }
             out.case(&format!("prog {} {} {}", s.ct_case(&res), pred0, fl(&trim(&msg))), &format!("{}-keyswitch-l{}", scheme_name(scheme), level), || s.dec_str(&res));
+            // the in-place form (key switching draws no randomness): the same object, bit for bit, and it decrypts under the new key
+            { let mut ip = ct2.clone(); let okp = std::panic::catch_unwind(std::panic::AssertUnwindSafe(|| s.evaluator.apply_keyswitching_inplace(&mut ip, &ksk))).is_ok();
+              if okp && ct_same(&ip, &res) { out.raw(&format!("!OK keyswitch_inplace {} l{} # {}-keyswitch-inplace-l{}", scheme_name(scheme), level, scheme_name(scheme), level)); }
+              else { out.raw(&format!("!FAIL keyswitch_inplace {} n={} level={} :: apply_keyswitching_inplace {} # {}-keyswitch-inplace-l{}", scheme_name(scheme), n, level, if okp { "differs from apply_keyswitching_new" } else { "was refused" }, scheme_name(scheme), level)); }
+              if okp { out.case(&format!("prog {} {} {}", s.ct_case(&ip), pred0, fl(&trim(&msg))), &format!("{}-keyswitch-inplace-l{}", scheme_name(scheme), level), || s.dec_str(&ip)); } }
         }
         let _ = (plain_of(&[1]), rand_msg(&mut r, 2, 3));
     }
     large_degrees(out, &mut r, thorough);
+    crate::galplain::run_ckks(out, &mut r, thorough);
+    crate::galplain::run_batched(out, &mut r, false);
+    crate::galplain::run_tool_wrappers(out, &mut r, if thorough { 90 } else { 18 });
 }
 
 /// Large degrees (far above the line-by-line range; the Galois tables use 32-bit bit reversal and u32 index arithmetic): row rotations with
